@@ -25,7 +25,8 @@ CP_CLASSES = [
     (lambda r: r.choice([0, 1, 0x1F, 0x0B, 0x7F]), 1),            # other controls, DEL
     (lambda r: r.randrange(0x80, 0x800), 1),                      # 2-byte
     (lambda r: r.choice([0x2028, 0x2029, 0xFFFF, 0xFFFD, 0x800, 0xD7FF, 0xE000, 0x20AC, 0x3042]), 1),
-    (lambda r: r.choice([0x10000, 0x1F603, 0x10FFFF, 0x1D11E, 0xFFFFF]), 1),
+    (lambda r: r.choice([0x10000, 0x1F603, 0x10FFFF, 0x1D11E, 0xFFFFF, 0xE0067, 0xE0001, 0xE007F]), 1),    # astral, tag characters
+    (lambda r: r.choice([0xAD, 0x200B, 0x200E, 0x202E, 0x2060, 0xFEFF, 0x80, 0x9F, 0x61D]), 1),            # invisible / formatting characters
 ]
 
 
